@@ -23,11 +23,11 @@ ASSUMPTIONS = ["a put/get that was granted before its cancel took effect counts 
                "FCFS is read strictly (no overtaking within a kind) except for FilterStore getters"]
 FLOORS = {"quick": {"grants": 20000, "advance_checks": 15000, "cancels_waiting": 2000, "head_cancelled_with_follower": 200,
                     "deliveries_checked": 5000, "equal_distinct_deliveries": 300, "fcfs_checks": 3000,
-                    "level_checks": 50000, "filter_nomatch_waits": 200},
+                    "level_checks": 50000, "filter_nomatch_waits": 200, "prio_deliveries_from_4plus": 500},
           "thorough": {"grants": 400000, "advance_checks": 300000, "cancels_waiting": 40000,
                        "head_cancelled_with_follower": 4000, "deliveries_checked": 100000,
                        "equal_distinct_deliveries": 6000, "fcfs_checks": 60000, "level_checks": 1000000,
-                       "filter_nomatch_waits": 4000}}
+                       "filter_nomatch_waits": 4000, "prio_deliveries_from_4plus": 2000}}
 GRID = [0, 0, 1, 1, 2, 3, 0.5]
 INF = float("inf")
 
@@ -37,7 +37,7 @@ def plan(tier):
 
 
 def ncases(tier):
-    return 700 if tier == "quick" else 12000
+    return 2500 if tier == "quick" else 12000
 
 
 class Item:
@@ -91,15 +91,18 @@ def gen_case(rng):
         cap = rng.choice([1, 2, 3, 3, INF])
         init = 0
     procs = []
-    for _ in range(nproc):
+    deep = kind == "PriorityStore" and rng.random() < 0.6      # many items held at once: exercises the heap
+    if deep:
+        cap = INF
+    for pi in range(nproc):
         its = []
-        bias = rng.random()
-        for _ in range(rng.randint(1, 6)):
+        bias = rng.random() if not deep else (0.9 if pi % 2 == 0 else 0.3)
+        for _ in range(rng.randint(1, 6) if not deep else rng.randint(4, 9)):
             its.append({
-                "delay": rng.choice(GRID),
+                "delay": rng.choice(GRID) if not deep else rng.choice([0, 0, 0, 1]),
                 "op": "put" if rng.random() < bias else "get",
                 "amount": rng.choice([1, 1, 2, 3, 5]),
-                "key": rng.choice([1, 1, 2, 3]),
+                "key": rng.choice([1, 1, 2, 3]) if not deep else rng.randint(1, 9),
                 "filter": rng.choice(FILTERS) if rng.random() < 0.8 else "any",
                 "patience": rng.choice([None, None, 0, 1, 2, 3]),
                 "form": rng.choice(["plain", "with"]),
@@ -217,6 +220,8 @@ class Ledger:
             return
         if any(h is not got and h == got for h in self.held):
             st["equal_distinct_deliveries"] += 1
+        if self.kind == "PriorityStore" and len(self.held) >= 4:
+            st["prio_deliveries_from_4plus"] += 1
         if not mixed:
             if self.kind == "Store" and idx != 0:
                 self.bad("not-fifo", "a Store delivered an item that is not the oldest held one",
@@ -371,7 +376,7 @@ def run_case(case, stats):
 
 KEYS = ("grants", "advance_checks", "cancels_waiting", "head_cancelled_with_follower", "deliveries_checked",
         "equal_distinct_deliveries", "fcfs_checks", "level_checks", "mixed_syncs", "granted_after_waiting",
-        "advance_with_waiters", "cancel_noop_granted", "pokes", "filter_nomatch_waits")
+        "advance_with_waiters", "cancel_noop_granted", "pokes", "filter_nomatch_waits", "prio_deliveries_from_4plus")
 
 
 def one_case(ctx, case):
